@@ -16,6 +16,7 @@ var commands = map[string]func([]string){
 	"c20":   cmdC20,
 	"asteq": cmdAsteq,
 	"vrace": cmdVrace,
+	"isgen": cmdIsgen,
 }
 
 func main() {
